@@ -29,23 +29,44 @@ def _facts(ctx):
     return f
 
 
-def _gcc(F, node, fn):
+def _gcc(F, node, fn, bind=None):
     """`node` executes only when <compiler>.deps_flavor == 'gcc'."""
     return any(op == 'Eq' and (has(l, 'deps_flavor') and has_const(r, 'gcc')
                                or has(r, 'deps_flavor') and
                                has_const(l, 'gcc'))
-               for op, l, r in F.guard_compares(node, fn))
+               for op, l, r in F.guard_compares(node, fn, bind))
+
+
+class _Site:
+    """A statement found in a handler or in a helper it calls: the node,
+    its function/binding and the call path leading there."""
+    def __init__(self, node, fn, bind, path, atoms=None):
+        self.node, self.call, self.fn, self.bind = node, node, fn, bind
+        self.path = path + ((fn, node),)
+        self.atoms = atoms
+
+
+def _gcc_at(F, site):
+    """The site (an Effect or a _Site) executes only under the gcc deps
+    flavor: the test guards it, or guards a call on the path to it."""
+    return any(_gcc(F, n, f) for f, n in site.path)
 
 
 def _item_stores(F, fn, key):
-    """(node, value atoms) of `<x>[key] = value` stores in fn."""
+    """`<x>[key] = value` stores in fn and the helpers of its module it
+    calls: [_Site] (atoms = value atoms). Iterating yields (node, atoms)
+    for the older callers."""
     out = []
-    for n in walk_no_nested(fn.node):
-        if isinstance(n, ast.Assign):
-            for t in n.targets:
-                if isinstance(t, ast.Subscript) and F.flow.const_keys(
-                        t.slice, fn) == [key]:
-                    out.append((n, F.atoms(n.value, fn)))
+    for g, b, path in F.frames_p(fn, 1):
+        if g.module is not fn.module:
+            continue
+        for n in walk_no_nested(g.node):
+            if isinstance(n, ast.Assign):
+                for t in n.targets:
+                    if isinstance(t, ast.Subscript) and F.flow.const_keys(
+                            t.slice, g, b) == [key]:
+                        out.append(_Site(n, g, b, path,
+                                         F.atoms(n.value, g, b)))
     return out
 
 
@@ -128,11 +149,12 @@ def depfile_wiring(ctx):
     mk = F.fn(CP + 'make_compile')
     suffixes = set()
     # (1) deps kwarg
+    def own(e):
+        return e.fn.module is mk.module
     a = _item_stores(F, mk, 'deps')
-    ok = bool(a) and all(_gcc(F, n, mk) for n, v in a)
-    comp = [e for e in F.effects(mk, lambda e: has(e.heads(),
-                                                   'rule.compiler'),
-                                 depth=0)
+    ok = bool(a) and all(_gcc_at(F, st) for st in a)
+    comp = [e for e in F.effects(mk, lambda e: own(e) and has(
+        e.heads(), 'rule.compiler'), depth=1)
             if any(k.arg is None for k in e.call.keywords) or
             Q.kwarg(e.call, 'deps') is not None]
     ok = ok and bool(comp)
@@ -140,17 +162,17 @@ def depfile_wiring(ctx):
            'make does not pass a depfile name to the compiler (under the '
            'gcc deps flavor)')
     deps_atoms = set()
-    for n, v in a:
-        deps_atoms |= v
-        suffixes |= {('make-kwarg', x) for x in _suffixes(v)}
+    for st in a:
+        deps_atoms |= st.atoms
+        suffixes |= {('make-kwarg', x) for x in _suffixes(st.atoms)}
     # (2) depfixer appended to the recipe
-    fix = [e for e in F.effects(mk, lambda e: e.callee_is("tool('depfixer')"),
-                                depth=0)]
-    ok = bool(fix) and all(_gcc(F, e.call, mk) for e in fix) and all(
-        all(has(F.atoms(t, mk), 'deps_flavor') or
-            has_call(F.atoms(t, mk), 'has_variable')
-            for t in F.guards(e.call, mk)) for e in fix)
-    defs = F.calls_to(mk, 'define', depth=0)
+    fix = [e for e in F.effects(mk, lambda e: own(e) and e.callee_is(
+        "tool('depfixer')"), depth=1)]
+    ok = bool(fix) and all(_gcc_at(F, e) for e in fix) and all(
+        all(has(F.atoms(t, f_), 'deps_flavor') or
+            has_call(F.atoms(t, f_), 'has_variable')
+            for f_, n_ in e.path for t in F.guards(n_, f_)) for e in fix)
+    defs = [e for e in F.calls_to(mk, 'define', depth=1) if own(e)]
     ok = ok and bool(defs) and any(
         any("tool('depfixer')(" in x for x in e.all_args()) and
         has(e.all_args(), 'rule.compiler') for e in defs)
@@ -163,9 +185,9 @@ def depfile_wiring(ctx):
                'depfixer processes a different file than the compiler '
                'writes')
     # (3) include optional, (4) add_target
-    inc = F.calls_to(mk, 'include', depth=0)
+    inc = [e for e in F.calls_to(mk, 'include', depth=1) if own(e)]
     ok = bool(inc) and all(
-        _gcc(F, e.call, mk) and e.kw_const('optional') is True and
+        _gcc_at(F, e) and e.kw_const('optional') is True and
         has(e.arg(0), 'rule.output[0]', 'path', 'addext()') for e in inc)
     ctx.ob(R, 'make_compile|include-optional', ok, mk.node,
            'the per-object depfile (next to the first output) is not '
@@ -173,9 +195,9 @@ def depfile_wiring(ctx):
            'the build)')
     for e in inc:
         suffixes |= {('make-include', x) for x in _suffixes(e.arg(0))}
-    at = F.calls_to(mk, 'add_target', depth=0)
+    at = [e for e in F.calls_to(mk, 'add_target', depth=1) if own(e)]
     ok = bool(at) and bool(inc) and all(
-        _gcc(F, e.call, mk) and
+        _gcc_at(F, e) and
         {x for x in e.arg(0) if 'addext(' in x} and
         {x.replace('via:', '') for x in e.arg(0) if 'addext(' in x} ==
         {x for i_ in inc for x in i_.arg(0) if 'addext(' in x}
@@ -186,7 +208,7 @@ def depfile_wiring(ctx):
     # the include operand is written as a Make target name
     w = F.fn('bfg9000.backends.make.syntax:Makefile.write')
     ws = [e for e in F.effects(w, lambda e: e.name == 'write', depth=1)
-          if has(e.arg(0), '_includes', 'name')]
+          if has(e.arg(0), '_includes')]
     ok = bool(ws) and all(has(e.arg(1, kw='syntax'), 'Syntax', 'target')
                           for e in ws)
     ctx.ob(R, 'Makefile.write|include-operand-is-a-target-name', ok, w.node,
@@ -198,7 +220,9 @@ def depfile_wiring(ctx):
                                  depth=1)
             if any('include' in x for x in e.arg(0)
                    if x.startswith('const:'))]
-    ok = bool(dash) and all(has(F.control(n, w), '_includes', 'optional')
+    # the dash is chosen per include entry (its `optional` field, however
+    # the entry is taken apart)
+    ok = bool(dash) and all(has(F.control(n, w), '_includes')
                             for n in dash) and bool(lits) and all(
         has_const(e.arg(0), '-') or has_const(e.arg(0), '-include ')
         for e in lits)
@@ -206,8 +230,10 @@ def depfile_wiring(ctx):
            'optional includes are not written as -include')
     # ninja
     nj = F.fn(CP + 'ninja_compile')
-    a2 = [(n, v) for n, v in _item_stores(F, nj, 'deps') if _gcc(F, n, nj)]
-    rl = F.calls_to(nj, 'rule', depth=0)
+    a2 = [(st.node, st.atoms) for st in _item_stores(F, nj, 'deps')
+          if _gcc_at(F, st)]
+    rl = [e for e in F.calls_to(nj, 'rule', depth=1)
+          if e.fn.module is nj.module]
     depfile_kw = set()
     for e in rl:
         depfile_kw |= e.arg(kw='depfile')
@@ -220,20 +246,24 @@ def depfile_wiring(ctx):
         suffixes |= {('ninja', x) for x in _suffixes(v)}
     ok = bool(rl) and all(has_const(e.arg(kw='deps'), 'gcc') and
                           has_const(e.arg(kw='deps'), None) for e in rl)
-    gcc_sets = [n for n in walk_no_nested(nj.node)
-                if isinstance(n, ast.Assign) and isinstance(
-                    n.value, ast.Constant) and n.value.value == 'gcc']
-    ok = ok and bool(gcc_sets) and all(_gcc(F, n, nj) for n in gcc_sets)
+    gcc_sets = []
+    for g, b, path in F.frames_p(nj, 1):
+        if g.module is nj.module:
+            gcc_sets += [_Site(n, g, b, path) for n in walk_no_nested(g.node)
+                         if isinstance(n, ast.Assign) and isinstance(
+                             n.value, ast.Constant) and
+                         n.value.value == 'gcc']
+    ok = ok and bool(gcc_sets) and all(_gcc_at(F, st) for st in gcc_sets)
     ctx.ob(R, 'ninja_compile|deps=gcc', ok, nj.node,
            'ninja rule does not set deps = gcc (under the gcc flavor only)')
-    ok = bool(rl) and all(Q.kwarg(e.call, 'depfile') is not None and
-                          Q.kwarg(e.call, 'deps') is not None for e in rl)
+    ok = bool(rl) and all(e.kw_exprs('depfile') and e.kw_exprs('deps')
+                          for e in rl)
     ctx.ob(R, 'ninja_compile|rule-gets-depfile+deps', ok, nj.node,
            'the ninja rule does not receive depfile/deps')
     cd = F.fn(CP + 'compdb_compile')
-    for n, v in _item_stores(F, cd, 'deps'):
-        if _gcc(F, n, cd):
-            suffixes |= {('compdb', x) for x in _suffixes(v)}
+    for st in _item_stores(F, cd, 'deps'):
+        if _gcc_at(F, st):
+            suffixes |= {('compdb', x) for x in _suffixes(st.atoms)}
     vals = {v for k, v in suffixes}
     ctx.ob(R, 'depfile-suffix-agreement', len(vals) == 1 and len(
         {k for k, v in suffixes}) >= 4, mk.node,
